@@ -7,6 +7,12 @@ entry in one-shot, incremental (copying consumer) and buffered (buffer-filling c
 
 from __future__ import annotations
 
+import json
+import os
+import shutil
+import subprocess
+import sys
+import tempfile
 from typing import Any
 
 from hypothesis import strategies as st
@@ -14,12 +20,13 @@ from hypothesis import strategies as st
 from easynetwork.exceptions import DatagramProtocolParseError, DeserializeError
 
 from .. import dgram, drivers, mutate, zoo
-from ..core import Check, HarnessError, Layer, Outcome, Violation
+from .. import core
+from ..core import Check, HarnessError, Inconclusive, Layer, Outcome, Violation
 
 # Confirmed defects, excluded by construction so that the search continues past them (brief rule 2).  With a flag on,
 # the generator keeps JSON documents below the failing shape and counts the cases it had to shrink ("capped-…").
-EXCLUDE_D3 = False  # JSONSerializer: RecursionError escapes for nesting deeper than the C recursion limit (~1497)
-EXCLUDE_D3B = False  # JSONSerializer: ValueError escapes for an integer literal longer than sys.get_int_max_str_digits()
+EXCLUDE_D3 = True  # JSONSerializer: RecursionError escapes for nesting deeper than the C recursion limit (~1497)
+EXCLUDE_D3B = True  # JSONSerializer: ValueError escapes for an integer literal longer than sys.get_int_max_str_digits()
 D3_SAFE_DEPTH = 400
 D3B_SAFE_DIGITS = 4000
 
@@ -106,6 +113,9 @@ def _st_payload(draw: st.DrawFn, spec: dict, budget: int, *, stream: bool) -> di
         sources += ["mutated-inner", "extreme-inner"]
     if _has_json(spec) and (inner is None or inner["kind"] == "json"):
         sources += ["template", "template", "template"]
+    marked = dgram.marked_packet(spec) if spec.get("conv") else None
+    if marked is not None:
+        sources += ["marked"]
     src = draw(st.sampled_from(sources))
     pre = post = b""
     wrap = False
@@ -119,6 +129,10 @@ def _st_payload(draw: st.DrawFn, spec: dict, budget: int, *, stream: bool) -> di
 
     if src == "random":
         parts = [[draw(mutate.st_random_bytes(spec, budget)), 1]]
+    elif src == "marked":
+        # a well-formed frame whose packet the converter refuses (PacketConversionError path of the protocol)
+        good = b"".join(entry.frame(marked)) if stream else entry.serializer.serialize(entry.to_dto(marked))
+        parts = [[good, draw(st.integers(1, 3)) if stream else 1]]
     elif src == "mutated":
         base = valid_bytes(4)
         parts = [[mutate.apply_ops(base, draw(mutate.st_mutation_ops(spec)), sep), 1]]
@@ -314,6 +328,142 @@ def run_stream(case: dict) -> Outcome:
 
 
 # ----------------------------------------------------------------------------------------------
+# secondary engine (thorough tier only): atheris / libFuzzer, one subprocess per (serializer target, corpus kind)
+
+_JSON_RAW = {"kind": "json", "use_lines": False, "ensure_ascii": True, "encoding": "utf-8", "limit": zoo.DEFAULT_LIMIT}
+_LINE = {"kind": "line", "newline": "LF", "encoding": "utf-8", "keep_end": True, "limit": 256}
+ATHERIS_TARGETS: list[dict] = [
+    _JSON_RAW,
+    {"kind": "json", "use_lines": True, "ensure_ascii": True, "encoding": "ascii", "limit": 512},
+    dict(_JSON_RAW, conv=True, limit=300),
+    _LINE,
+    {"kind": "line", "newline": "CRLF", "encoding": "ascii", "keep_end": False, "limit": 64},
+    {"kind": "autosep", "separator": b"aba", "check": True, "limit": 32},
+    {"kind": "base64", "inner": dict(_JSON_RAW), "alphabet": "urlsafe", "checksum": "sha", "separator": b"\r\n", "limit": 2048},
+    {"kind": "base64", "inner": dict(_LINE), "alphabet": "standard", "checksum": "none", "separator": b"\t\n ", "limit": 128},
+    {"kind": "zlib", "inner": dict(_JSON_RAW), "level": None},
+    {"kind": "bz2", "inner": dict(_LINE), "level": 1},
+    {"kind": "namedtuple", "endian": "!", "fields": ["3s", "H", "5s"]},
+    {"kind": "hfile", "limit": 64},
+    {"kind": "lenprefixed", "limit": 100},
+    {"kind": "stapled", "sent": dict(_JSON_RAW), "recv": dict(_JSON_RAW)},
+    {"kind": "pickle", "restricted": True},
+    {"kind": "base64", "inner": {"kind": "pickle", "restricted": True}, "alphabet": "urlsafe", "checksum": "key", "separator": b"|", "limit": 4096},
+]
+ATHERIS_RUNS = 40000
+ATHERIS_MAX_LEN = 4096
+_fuzz_cache: dict[str, dict] = {}
+
+
+def atheris_available() -> bool:
+    try:
+        import importlib.util
+
+        return importlib.util.find_spec("atheris") is not None
+    except Exception:  # noqa: BLE001
+        return False
+
+
+def _shard_index() -> int:
+    """index of the thorough-tier worker (the runner passes --shard i/N to each worker process)"""
+    argv = sys.argv
+    if "--shard" in argv:
+        try:
+            return int(argv[argv.index("--shard") + 1].split("/")[0])
+        except (ValueError, IndexError):
+            return 0
+    return 0
+
+
+def st_atheris_case(tier: str) -> st.SearchStrategy[dict]:
+    i = _shard_index() % len(ATHERIS_TARGETS)
+    seed = int(os.environ.get("VERIF_SEED") or "1")
+    return st.sampled_from([False, True]).map(
+        lambda valid: {"target": i, "spec": ATHERIS_TARGETS[i], "valid_corpus": valid, "runs": ATHERIS_RUNS, "max_len": ATHERIS_MAX_LEN, "seed": seed}
+    )
+
+
+def _run_fuzzer(case: dict) -> dict:
+    key = core.case_digest(case)
+    if key in _fuzz_cache:
+        return _fuzz_cache[key]
+    out = tempfile.mkdtemp(prefix="c06-atheris-")
+    try:
+        cmd = [
+            sys.executable, "-X", "faulthandler", "-m", "pbt.atheris_c06",
+            "--spec", json.dumps(core.to_jsonable(case["spec"])),
+            "--runs", str(case["runs"]), "--seed", str(case["seed"]), "--max-len", str(case["max_len"]), "--out", out,
+        ]  # fmt: skip
+        if case["valid_corpus"]:
+            cmd.append("--valid-corpus")
+        try:
+            p = subprocess.run(cmd, cwd=core.VERIF_ROOT, capture_output=True, text=True, timeout=1500)
+        except subprocess.TimeoutExpired:
+            raise Inconclusive("atheris subprocess exceeded 1500 s") from None
+        res: dict[str, Any] = {"rc": p.returncode, "stats": {}, "violation": None, "artifacts": [], "tail": (p.stdout + p.stderr)[-1500:]}
+        sp = os.path.join(out, "stats.json")
+        if os.path.exists(sp):
+            with open(sp) as f:
+                res["stats"] = json.load(f)
+        vp = os.path.join(out, "violation.json")
+        if os.path.exists(vp):
+            with open(vp) as f:
+                res["violation"] = json.load(f)
+        for name in sorted(os.listdir(out)):
+            if name.startswith(("crash-", "timeout-", "oom-", "leak-")):
+                with open(os.path.join(out, name), "rb") as f:
+                    res["artifacts"].append((name, f.read()))
+    finally:
+        shutil.rmtree(out, ignore_errors=True)
+    _fuzz_cache[key] = res
+    return res
+
+
+def _case_from_fuzz_input(spec: dict, data: bytes) -> dict:
+    stride = data[0] if data else 0
+    body = data[1:]
+    n = len(body)
+    return {
+        "spec": spec, "src": "atheris", "pre": b"", "parts": [[body, 1]], "wrap": False, "post": b"",
+        "cuts": list(range(stride, n, stride)) if stride else [], "fills": [stride or (1 << 20)], "sizehint": max(1, stride), "layer": "stream",
+    }  # fmt: skip
+
+
+def run_atheris(case: dict) -> Outcome:
+    if not atheris_available():
+        return Outcome(nontrivial=False, classes=("atheris-not-importable-skipped",))
+    res = _run_fuzzer(case)
+    spec = case["spec"]
+    classes = [f"target-{case['target']}-{spec['kind']}", "corpus-valid" if case["valid_corpus"] else "corpus-empty"]
+    stats = res["stats"]
+    note = f"atheris execs={stats.get('execs')} rejected-outcomes={stats.get('rejected')} skipped-excluded={stats.get('skipped_excluded')} rc={res['rc']}"
+    # translate a fuzzer finding into an ordinary violation of the direct layers, with its own replay file
+    direct: list[tuple[str, dict]] = []
+    if res["violation"] is not None:
+        direct.append((res["violation"]["layer"], core.from_jsonable(res["violation"]["case"])))
+    for name, data in res["artifacts"]:
+        c = _case_from_fuzz_input(spec, data)
+        direct.append(("stream" if zoo.build(spec).incremental else "oneshot", c))
+        direct.append(("oneshot", dict(c, layer="oneshot")))
+        if name.startswith("timeout-"):
+            raise Violation("hang", f"libFuzzer reported a unit slower than 30 s: {name}, input {data[:64]!r}... ({len(data)} bytes)", fuzz_artifact=name)
+    for layer, c in direct:
+        c = dict(c, layer=layer)
+        try:
+            run_oneshot(c) if layer == "oneshot" else run_stream(c)
+        except Violation as v:
+            path = core.save_replay("C06", c, v)
+            raise Violation(v.kind, f"{v.message} [found by atheris, direct replay: {path}]", **v.details) from v
+    if direct or res["rc"] != 0:
+        raise Inconclusive(f"atheris ended with rc={res['rc']} but nothing reproduces in-process: {res['tail'][-400:]}")
+    if not stats.get("execs"):
+        raise HarnessError(f"atheris produced no statistics: {res['tail'][-600:]}")
+    if stats.get("skipped_excluded"):
+        classes.append("excluded-inputs-skipped")
+    return Outcome(nontrivial=bool(stats.get("rejected")), classes=tuple(classes), note=note)
+
+
+# ----------------------------------------------------------------------------------------------
 
 CHECK = Check(
     id="C06",
@@ -330,6 +480,9 @@ CHECK = Check(
     layers=[
         Layer("oneshot", st_oneshot_case, run_oneshot, {"quick": 700, "thorough": 5000}, hang_is_violation=True, case_timeout_s=30),
         Layer("stream", st_stream_case, run_stream, {"quick": 1100, "thorough": 8000}, hang_is_violation=True, case_timeout_s=30),
+        # one case = one bounded libFuzzer run in a subprocess (same oracle in-target); a fuzzer finding is re-run through the
+        # direct layers and reported with a direct replay file.  Skipped (and recorded as a class) if atheris is not importable.
+        Layer("atheris", st_atheris_case, run_atheris, {"quick": 0, "thorough": 2}, case_timeout_s=1700),
     ],
     assumptions=[
         "Pickle is fuzzed only through a restricted unpickler (find_class refused); generated bytes never reach an unrestricted one",
@@ -342,5 +495,9 @@ CHECK = Check(
         "decompression output is not bounded by the library (a compressed run of zeros expands freely); generated compressed extremes "
         "expand to at most a few MiB, memory exhaustion is outside this property",
         "cbor/msgpack serializers cannot be imported offline; FileBasedPacketSerializer is covered by a harness subclass",
+        "thorough tier adds atheris (16 fixed serializer targets x {empty corpus, corpus of valid streams}, "
+        f"{ATHERIS_RUNS} executions each, inputs <= {ATHERIS_MAX_LEN} bytes, first byte = chunk stride) when `import atheris` works"
+        + ("" if atheris_available() else " - NOT importable in this run: Hypothesis only"),
+        "Hypothesis is the deciding engine; an atheris run counts as one evaluation, its executions are reported in the sample note",
     ],
 )
